@@ -250,9 +250,7 @@ impl System {
                 for partition in topic.get_partitions() {
                     let mut partition = partition.write().await;
                     for segment in partition.get_segments_mut() {
-                        if !segment.is_closed {
-                            segment.shutdown_writing_and_wait().await;
-                        }
+                        segment.shutdown_writing_and_wait().await;
                     }
                 }
             }
